@@ -416,10 +416,11 @@ def apply_datum(datum, node):
     raise ValueError(datum)
 
 
-def select(path_t, doc, with_paths=False):
+def select(path_t, doc, with_paths=False, sel=None):
     """What ``get_data`` must return: the reference selection with modifiers applied."""
     _, parts, datum, multi, _ = path_t
-    sel = walk(path_t, doc)
+    if sel is None:
+        sel = walk(path_t, doc)
     conc = is_concrete(path_t)
     if not sel:
         return None if conc else []
